@@ -7,7 +7,7 @@ import numpy as np
 from harness.core import use_repo, Divergence
 
 VALUES = {
-    'd1.a': [1.0, 2.0, 3.0], 'd1.b': [4.0, 5.0, 6.0], 'd1.c': [0.5, 1.5, 2.5],
+    'd1.a': [1.0, 2.0, 3.0], 'd1.b': [4.0, 5.0, 6.0], 'd1.c': [2.5, 4.5, 6.5],       # d1.c = 2 * d1.a + 0.5 (derived)
     'd2.a': [7.0, 8.0, 9.0, 10.0], 'd2.b': [11.0, 12.0, 13.0, 14.0],
     'd3.a': [15.0, 16.0], 'd3.b': [17.0, 18.0],
 }
@@ -18,18 +18,20 @@ FWD = {
     'L1': lambda x: 2 * x + 1, 'L2': lambda x: 3 * x + 2, 'L3': lambda x: x + 10,
     'L4': lambda x, y: x + 3 * y + 5, 'L5': lambda x: 2 * x - 7, 'L6': lambda x: x,
     'L7': lambda x: x + 100, 'L8': lambda x: 3 - x, 'L9': lambda x, y: 5 * x - 2 * y + 1,
-    'L10': lambda x, y: 2 * x - y + 40,
+    'L10': lambda x, y: 2 * x - y + 40, 'L11': lambda x: 4 * x - 1,
+    'def:d1.c': lambda x: 2 * x + 0.5,           # the defining expression of the derived attribute
 }
 # backward function of the many-to-one helper: one value per input
 BWD = {'L10': lambda z: (z - 20, z * 0.5 + 3)}
 INV = {
-    'L1': lambda y: (y - 1) / 2, 'L3': lambda y: y - 10, 'L6': lambda y: y, 'L8': lambda y: 3 - y,
+    'L1': lambda y: (y - 1) / 2, 'L3': lambda y: y - 10, 'L6': lambda y: y, 'L8': lambda y: 3 - y, 'L11': lambda y: (y + 1) / 4,
 }
 MENU = {
     'L1': (('d1.a',), 'd2.a', True), 'L2': (('d2.a',), 'd3.a', False), 'L3': (('d1.b',), 'd3.a', True),
     'L4': (('d1.a', 'd1.b'), 'd2.b', False), 'L5': (('d3.a',), 'd1.a', False), 'L6': (('d2.b',), 'd3.b', True),
     'L7': (('d2.a',), 'd2.b', False), 'L8': (('d3.b',), 'd1.b', True), 'L9': (('d2.a', 'd3.a'), 'd1.b', False),
-    'L10': (('d1.a', 'd1.b'), 'd2.b', True),
+    'L10': (('d1.a', 'd1.b'), 'd2.b', True), 'L11': (('d1.c',), 'd3.b', True),
+    'def:d1.c': (('d1.a',), 'd1.c', False),
 }
 
 
@@ -51,6 +53,13 @@ class LWorld(object):
 
     def _add_comp(self, c):
         d = self.data[c.split('.')[0]]
+        if c == 'd1.c':
+            # an internal derived attribute: d1.c = 2 * d1.a + 0.5
+            from glue.core.component_id import ComponentID
+            cid = ComponentID('c', parent=d)
+            d.add_component_link(self.cid['d1.a'] * 2 + 0.5, cid)
+            self.cid[c] = cid
+            return
         self.cid[c] = d.add_component(np.array(VALUES[c]), c.split('.')[1])
 
     def make_link(self, lid):
@@ -78,6 +87,8 @@ class LWorld(object):
             cid = self.cid.pop(a['c'])
             self.data[a['d']].remove_component(cid)
             self.dead.append(cid)
+            if a['c'] == 'd1.a' and 'd1.c' in self.cid:        # the derived attribute computed from it goes with it
+                self.dead.append(self.cid.pop('d1.c'))
         elif op == 'AddLink':
             if a['l'] not in self.linkobj:
                 self.linkobj[a['l']] = self.make_link(a['l'])
